@@ -110,6 +110,8 @@ type Node struct {
 	crashed bool
 	panicked bool
 	pausedUntil time.Duration
+	slowUntil   time.Duration
+	slowExtra   time.Duration
 	procPending bool
 	procCtr     uint64
 	skew        float64
@@ -243,7 +245,7 @@ func (nd *Node) build(base crypto.Base) error {
 	var lr leaderrotation.LeaderRotation
 	switch p.Leader {
 	case "scripted":
-		lr = &scriptLeader{script: p.Script, n: p.N}
+		lr = &scriptLeader{script: p.Script, prefix: p.PrefixScript, n: p.N}
 	default:
 		lr, err = leaderrotation.New(nd.log, nd.cfg, nd.bc, nd.states, p.Leader, nd.rules.ChainLength())
 		if err != nil {
@@ -416,10 +418,14 @@ func (l *leaderWrap) GetLeader(v hotstuff.View) hotstuff.ID {
 
 type scriptLeader struct {
 	script []int
+	prefix []int
 	n      int
 }
 
 func (s *scriptLeader) GetLeader(v hotstuff.View) hotstuff.ID {
+	if v >= 1 && int(v) <= len(s.prefix) {
+		return hotstuff.ID(s.prefix[v-1])
+	}
 	if len(s.script) == 0 {
 		return hotstuff.ID(uint64(v)%uint64(s.n) + 1)
 	}
